@@ -320,7 +320,11 @@ func activeKnownList() []string {
 // timeout is confirmed once in a fresh process before it counts, a death with a Go crash report
 // counts at once (and is re-run for the record), a death without any report (killed from outside)
 // must happen twice.
-func dispatch(j job) (res jobResult, fatal string) {
+func dispatch(j job) (res jobResult, fatal string) { return dispatchWithin(j, watchdog) }
+
+// dispatchWithin: like dispatch with an explicit watchdog (large source texts legitimately take
+// seconds — otto's parser is super-linear in the number of syntax errors — and the machine is shared).
+func dispatchWithin(j job, watchdog time.Duration) (res jobResult, fatal string) {
 	j.Known = activeKnownList()
 	w := pool.get()
 	defer pool.put(w)
